@@ -678,15 +678,41 @@ def gen_fltm(r, n, tier):
         yield f"fltm {f} {peer}"
 
 
+# life r<min ms>.<max ms> m<max timeouts|0> t<request timeout ms> [tls:]<behaviours> <stops>
+#   behaviours: `/`-joined, one per connection attempt, the last one repeats, `b*n` = n attempts:
+#     refuse | close | garbage | silent | serve; with `tls:` (TLS client) refuse | hsclose |
+#     hsgarbage | hscert (handshake fails after the TCP connect succeeded) | serve | close
+#   stops: `,`-joined, `-` or `+`-joined actions E D S X R L<0..3> (set_decode_level),
+#     `stop*n` = n copies; one stop per listener callback / idle period (PROTOCOL.md, "life")
+# life: attempts that end in `handle_failed_connection` (refused connect; TLS: the TCP connect
+# succeeds and the handshake fails because the peer closes / sends garbage / presents the wrong
+# certificate)
+LIFE_FAILS = ("refuse", "hsclose", "hsgarbage", "hscert")
+
+
+def life_expand(items):
+    """`x*n` stands for n copies of x (behaviours and stops of the life suite)"""
+    out = []
+    for it in items:
+        if "*" in it:
+            x, k = it.split("*")
+            out.extend([x] * int(k))
+        else:
+            out.append(it)
+    return out
+
+
 class LifeSim:
     """coarse mirror of the lifecycle model, used ONLY to keep generated scripts away from
-    schedules the harness cannot force deterministically (never used for verdicts)"""
+    schedules the harness cannot force deterministically (never used for verdicts).
+    Commands other than E D S R (i.e. the decode-level changes L<n>) are consumed without effect
+    in every phase."""
 
     def __init__(self, behaviours, maxto):
         self.enabled = False
         self.queue = []
         self.handles = True
-        self.behaviours = list(behaviours)
+        self.behaviours = life_expand(behaviours)
         self.maxto = maxto
         self.tcount = 0
         self.pos = ("gate", "Disabled", "waitEnabled", None)
@@ -729,7 +755,7 @@ class LifeSim:
                     phase = "waitEnabled"
                     continue
                 b = self.cur
-                if b == "refuse":
+                if b in LIFE_FAILS:
                     return ("gate", "WaitFail", "failFor", None)
                 return ("gate", "Connected", "sessionStart", b)
             if phase == "sessionStart":
@@ -774,19 +800,22 @@ class LifeSim:
 
 
 def life_allowed(sim):
-    """(max number of actions, allowed alphabet) at the current stop"""
+    """(max number of actions, allowed alphabet) at the current stop; `L` stands for L0..L3
+    (set_decode_level), allowed wherever the other actions are"""
     if sim.pos[0] == "done":
         return 0, []
     if sim.pos[0] == "idle":
-        return 1, ["E", "D", "S", "X", "R"]
+        return 1, ["E", "D", "S", "X", "R", "L"]
     if sim.pos[1] == "Connected" and sim.pos[3] in ("close", "garbage"):
         return 0, []        # EOF/garbage and a queued command would race in select!
     if sim.pos[1] == "Shutdown":
         return 0, []
-    return 3, ["E", "D", "S", "X", "R", "R"]
+    return 3, ["E", "D", "S", "X", "R", "R", "L"]
 
 
-def life_case(r, behaviours, maxto, nstops, rmin=30, rmax=120, choose=None):
+def life_case(r, behaviours, maxto, nstops, rmin=30, rmax=120, choose=None, tls=False, lweight=2):
+    """behaviours / stops may use the `x*n` shorthand; `tls`: the TLS client (behaviours out of
+    refuse hsclose hsgarbage hscert serve close); `lweight`: weight of L among the random actions"""
     sim = LifeSim(behaviours, maxto)
     stops = []
     for k in range(nstops):
@@ -806,13 +835,33 @@ def life_case(r, behaviours, maxto, nstops, rmin=30, rmax=120, choose=None):
                     n = r.pick([0, 0, 1, 1, 1, 2, 3])
             if n >= 0:
                 n = min(n, mx)
-                weights = [a for a in alpha for _ in range({"E": 3, "D": 2, "S": 1, "X": 1, "R": 5}[a])]
+                weights = [a for a in alpha for _ in range({"E": 3, "D": 2, "S": 1, "X": 1, "R": 5, "L": lweight}[a])]
                 acts = [r.pick(weights) for _ in range(n)]
+                acts = [f"L{r.below(4)}" if a == "L" else a for a in acts]
         if acts is None:
             return None
         stops.append("+".join(acts) if acts else "-")
         sim.stop(acts)
-    return f"life r{rmin}.{rmax} m{maxto} t100 {'/'.join(behaviours)} {','.join(stops) if stops else '-'}"
+    # run-length encode repeated stops (`-*600`): long failure runs stay readable
+    packed = []
+    for st in stops:
+        if packed and packed[-1][0] == st:
+            packed[-1][1] += 1
+        else:
+            packed.append([st, 1])
+    stops = [st if k == 1 else (f"{st}*{k}" if k >= 8 else ",".join([st] * k)) for st, k in packed]
+    return f"life r{rmin}.{rmax} m{maxto} t100 {'tls:' if tls else ''}{'/'.join(behaviours)} {','.join(stops) if stops else '-'}"
+
+
+def life_script(seq):
+    """`choose` callback of life_case that plays a fixed list of stops (one list of actions per
+    stop, empty afterwards); a stop the schedule cannot force is replaced by an empty one"""
+    def choose(k, mx, al):
+        a = seq[k] if k < len(seq) else []
+        if len(a) > mx or any(x[:1] not in al for x in a):
+            return []
+        return list(a)
+    return choose
 
 
 def gen_life(r, n, tier):
@@ -834,6 +883,32 @@ def gen_life(r, n, tier):
     yield "life r30.120 m0 t100 serve -,S"
     yield "life r30.120 m0 t100 serve X"
     yield "life r30.120 m0 t100 serve E+D+E+D"
+    # C13: set_decode_level is a setting like any other: while the channel is disabled (initially,
+    # after a disable, behind a redundant disable, next to requests) it must not make the task dial
+    yield "life r30.120 m0 t100 serve L1,-,E,-,-,R"
+    yield "life r30.120 m0 t100 serve L2+L0,L3+R,D+L1,-"
+    yield "life r30.120 m0 t100 serve E,-,-,D,-,L3,R,L0,E,-,-,R"
+    yield "life r30.120 m0 t100 refuse/serve E,-,D,-,L1,D+L2,-,E,-,-"
+    yield "life r30.120 m0 t100 serve E+L2,L1,L0+R,L3,R,D+L1+E,-,-,R"
+    yield "life r30.120 m2 t100 silent/serve E,-,-,R,L1,R,-,-,-,R"
+    yield "life r30.120 m0 t100 serve L1,S"
+    yield "life r30.120 m0 t100 serve D+L3+R,X"
+    # C14 with a TLS client: a TCP connect that succeeds does not restart the delay sequence, only
+    # a completed handshake does; a failed handshake is a failed attempt like a refused connect
+    yield "life r10.80 m0 t100 tls:hsclose/hsclose/hsclose/hsclose/hsclose/serve E,-*11,R"
+    yield "life r10.80 m0 t100 tls:hsgarbage/hsgarbage/hsgarbage/serve E,-*7,R"
+    yield "life r10.80 m0 t100 tls:hscert/hscert/hscert/serve E,-*7,R"
+    yield "life r10.80 m0 t100 tls:hsclose/refuse/hsgarbage/close/hscert/hsclose/serve E,-*14,R"
+    yield "life r20.160 m0 t100 tls:hsclose/hsgarbage/serve/hsclose/hscert/serve E,-,-,-,-,-,-,D,E,-,-,-,-,-,R"
+    yield "life r10.40 m0 t100 tls:refuse/hsclose/refuse/hsclose/serve E,-,R,-,R,-,R,-,-,-,R"
+    yield "life r30.120 m0 t100 tls:hsclose/serve E,-,D,-,E,-,-,L2,R"
+    yield "life r30.120 m0 t100 tls:serve L1,E,-,R,R,S"
+    yield "life r30.120 m0 t100 tls:hsgarbage E,-,-,X"
+    # long failure runs (>= 300 attempts): nothing that counts attempts may wrap
+    yield "life r1.8 m0 t100 refuse E,-*598"
+    yield "life r1.2 m0 t100 refuse*300/serve/refuse E,-*600,-,R,D,E,-,-,-,-"
+    yield "life r1.4 m0 t100 tls:hsclose*270/serve E,-*540,-,R"
+    yield "life r0.0 m0 t100 refuse E,-*1400"
     if tier == "thorough":
         # exhaustive: every action sequence of length <= 4 (one action per stop) for each single fault
         alphabet = [[], ["E"], ["D"], ["S"], ["X"], ["R"]]
@@ -850,11 +925,86 @@ def gen_life(r, n, tier):
                 c = life_case(r, [b, "serve"], 2, 4, choose=choose)
                 if ok[0] and c:
                     yield c
+        # ... every such sequence over {none, enable, disable, request, set decode level} that
+        # contains a decode-level change (the three peers that differ in where commands are read)
+        alphabet = [[], ["E"], ["D"], ["R"], ["L1"]]
+        for b in ["refuse", "silent", "serve"]:
+            for seq in itertools.product(alphabet, repeat=4):
+                if ["L1"] not in seq:
+                    continue
+                ok = [True]
+
+                def choose(k, mx, al, seq=seq, ok=ok):
+                    a = seq[k] if k < len(seq) else []
+                    if a and (mx == 0 or a[0][:1] not in al):
+                        ok[0] = False
+                        return []
+                    return a
+                c = life_case(r, [b, "serve"], 2, 4, choose=choose)
+                if ok[0] and c:
+                    yield c
+        # ... and, TLS client, every sequence of length <= 3 for a failed handshake then recovery
+        alphabet = [[], ["E"], ["D"], ["S"], ["X"], ["R"]]
+        for seq in itertools.product(alphabet, repeat=3):
+            ok = [True]
+
+            def choose(k, mx, al, seq=seq, ok=ok):
+                a = seq[k] if k < len(seq) else []
+                if a and (mx == 0 or a[0] not in al):
+                    ok[0] = False
+                    return []
+                return a
+            c = life_case(r, ["hsclose", "serve"], 2, 3, choose=choose, tls=True)
+            if ok[0] and c:
+                yield c
+    tls_fail = ["refuse", "hsclose", "hsclose", "hsgarbage", "hscert"]
     for _ in range(n):
-        nb = r.rng(1, 4)
-        bs = [r.pick(beh) for _ in range(nb)]
-        c = life_case(r, bs, r.pick([0, 0, 1, 2, 3]), r.rng(2, 10),
-                      rmin=r.pick([10, 30, 50]), rmax=r.pick([10, 60, 120, 200]))
+        kind = r.below(20)
+        if kind < 11:
+            # plain TCP, random script (decode-level changes included)
+            nb = r.rng(1, 4)
+            bs = [r.pick(beh) for _ in range(nb)]
+            c = life_case(r, bs, r.pick([0, 0, 1, 2, 3]), r.rng(2, 10),
+                          rmin=r.pick([10, 30, 50]), rmax=r.pick([10, 60, 120, 200]),
+                          lweight=r.pick([1, 2, 6]))
+        elif kind < 14:
+            # decode-level changes around the disabled state
+            bs = [r.pick(beh) for _ in range(r.rng(1, 3))]
+            seq = []
+            if r.chance(1, 2):
+                seq += [["E"]] + [[] for _ in range(r.rng(1, 3))] + [["D"]]
+            seq += [r.pick([[f"L{r.below(4)}"], [f"L{r.below(4)}", "R"], ["D", f"L{r.below(4)}"], [f"L{r.below(4)}", f"L{r.below(4)}"], []])
+                    for _ in range(r.rng(1, 3))]
+            seq += [r.pick([["E"], ["R"], ["S"], ["X"], []]) for _ in range(r.rng(0, 3))]
+            c = life_case(r, bs, r.pick([0, 1, 2]), len(seq) + r.rng(0, 2), choose=life_script(seq))
+        elif kind < 18:
+            # TLS client: runs of failed handshakes / refused connects between successful connections
+            bs = []
+            for _ in range(r.rng(1, 2)):
+                bs += [r.pick(tls_fail) for _ in range(r.rng(1, 4))] + [r.pick(["serve", "serve", "close"])]
+            if r.chance(1, 3):
+                bs += [r.pick(tls_fail)]
+            if r.chance(2, 3):
+                # enable, then watch (a request now and then): the delays are what matters
+                seq = [["E"]] + [r.pick([[], [], [], ["R"]]) for _ in range(2 * len(bs) + 2)]
+                c = life_case(r, bs, 0, len(seq), rmin=r.pick([5, 10, 20]), rmax=r.pick([40, 80, 160]),
+                              choose=life_script(seq), tls=True)
+            else:
+                c = life_case(r, bs, r.pick([0, 0, 2]), r.rng(3, 10), rmin=r.pick([10, 30]),
+                              rmax=r.pick([60, 120]), tls=True)
+        else:
+            # long failure runs, then (sometimes) success and a restart at the minimum
+            tls = r.chance(1, 3)
+            rmax = r.pick([1, 2, 2, 4]) if not tls else r.pick([1, 2])
+            k = r.rng(257, 330) if rmax > 1 else r.rng(300, 520)
+            fail = r.pick(["hsclose", "hsgarbage"]) if tls else "refuse"
+            if r.chance(1, 2):
+                bs, seq = [fail], [["E"]] + [[] for _ in range(2 * k)]
+            else:
+                bs = [f"{fail}*{k}", "serve", fail]
+                seq = [["E"]] + [[] for _ in range(2 * k + 1)] + [["R"], ["D"], ["E"], [], [], []]
+            c = life_case(r, bs, 0, len(seq), rmin=r.pick([0, 1]) if rmax == 1 else 1, rmax=rmax,
+                          choose=life_script(seq), tls=tls)
         if c:
             yield c
 
